@@ -190,8 +190,76 @@ fn exec_on_this_thread<O: 'static>(prefix: Vec<Point>, cfg: &RunCfg, scen: &Scen
     }
 }
 
-/// Run one execution on a fresh thread (fresh thread-locals: RandomState seeds, tokio context, rng).
+type Job = Box<dyn FnOnce() + Send>;
+
+thread_local! {
+    /// a persistent helper thread per calling thread, used when no tape choice is enabled (history search):
+    /// creating a fresh OS thread per execution serialises on the process' address-space lock
+    static HELPER: RefCell<Option<std::sync::mpsc::Sender<Job>>> = const { RefCell::new(None) };
+}
+
+fn helper_submit(job: Job) {
+    HELPER.with(|h| {
+        let mut g = h.borrow_mut();
+        let job = match g.as_ref() {
+            Some(tx) => match tx.send(job) {
+                Ok(()) => return,
+                Err(e) => e.0,
+            },
+            None => job,
+        };
+        let (tx, rx) = std::sync::mpsc::channel::<Job>();
+        std::thread::Builder::new()
+            .stack_size(8 << 20)
+            .spawn(move || {
+                while let Ok(j) = rx.recv() {
+                    j();
+                }
+            })
+            .expect("spawn helper thread");
+        let _ = tx.send(job);
+        *g = Some(tx);
+    });
+}
+
+fn helper_abandon() {
+    HELPER.with(|h| *h.borrow_mut() = None);
+}
+
+/// Run one execution.  With tape choices enabled (schedule exploration) it runs on a FRESH thread, so that
+/// every execution starts from identical thread-local state (hash seeds, tokio context, rng) and replays
+/// are bit-reproducible.  With no choice kind enabled (history search, default schedule only) a persistent
+/// helper thread per caller is reused.
 pub fn run_exec<O: Send + 'static>(prefix: Vec<Point>, cfg: &RunCfg, scen: &Scenario<O>) -> Exec<O> {
+    if cfg.enabled.iter().all(|e| !*e) && prefix.is_empty() {
+        let cfg2 = cfg.clone();
+        let scen2 = scen.clone();
+        let (tx, rx) = std::sync::mpsc::channel();
+        helper_submit(Box::new(move || {
+            let e = exec_on_this_thread(vec![], &cfg2, &scen2);
+            let _ = tx.send(e);
+        }));
+        return match rx.recv_timeout(cfg.real_timeout) {
+            Ok(e) => e,
+            Err(_) => {
+                helper_abandon();
+                Exec {
+                    points: vec![],
+                    out: None,
+                    panics: vec![],
+                    diverged: None,
+                    alive_tasks: 0,
+                    watchdog: true,
+                    spun: false,
+                }
+            }
+        };
+    }
+    run_exec_fresh(prefix, cfg, scen)
+}
+
+/// Run one execution on a fresh thread (fresh thread-locals: RandomState seeds, tokio context, rng).
+pub fn run_exec_fresh<O: Send + 'static>(prefix: Vec<Point>, cfg: &RunCfg, scen: &Scenario<O>) -> Exec<O> {
     let cfg2 = cfg.clone();
     let scen2 = scen.clone();
     let (tx, rx) = std::sync::mpsc::channel();
